@@ -290,6 +290,26 @@ func main() {
 	if string(old) != w.String() {
 		os.WriteFile(out, []byte(w.String()), 0644)
 	}
+
+	// ---- functions translated statement by statement (translate.go): Gen/Scan.lean
+	var sw strings.Builder
+	sw.WriteString("/- GENERATED by harness/cmd/factgen (translate.go) from /repo's source on every run. Do not edit. -/\n")
+	sw.WriteString("import Whawty.Gen.Prelude\nnamespace Whawty.Gen\nopen Whawty\n\n")
+	if fset, f := parse(filepath.Join(repo, "sasl", "sasl_encoding.go")); f != nil {
+		consts := map[string]int{}
+		if v, ok := fc.nat["saslMaxRequestLength"]; ok {
+			consts["MaxRequestLength"] = v
+		}
+		sw.WriteString(translateFunc(f, fset, "scanLengthEncodedString", "scanLengthEncodedString", consts))
+	} else {
+		sw.WriteString("def scanLengthEncodedString : Option (Bytes → Bool → Nat × Option Bytes × Bool) := none\n")
+	}
+	sw.WriteString("\nend Whawty.Gen\n")
+	scanOut := filepath.Join(filepath.Dir(out), "Scan.lean")
+	old, _ = os.ReadFile(scanOut)
+	if string(old) != sw.String() {
+		os.WriteFile(scanOut, []byte(sw.String()), 0644)
+	}
 }
 
 // translateRe understands exactly the shape ^[class][class]*$ with literal characters and a-b
